@@ -139,8 +139,37 @@ Proof.
     rewrite (Hf t _ (Hnth t Lt)). exact E.
 Qed.
 
+(* ------------------------------------------------------------------ distinct event names, as [parse_rcase] checks them *)
+Lemma concat_number_threads {A} (ths : list (list A)) : forall t0, map snd (concat (number_threads t0 ths)) = concat ths.
+Proof.
+  assert (N : forall t (ops : list A) i, map snd (number_ops t i ops) = ops).
+  { intros t ops. induction ops as [|a ops IH]; intros i; [reflexivity|]. cbn. rewrite IH. reflexivity. }
+  induction ths as [|ops ths IH]; intros t0; [reflexivity|]. cbn [number_threads concat]. rewrite map_app, N, IH. reflexivity.
+Qed.
+
+Definition ev_name_of (o : op aval) : list bytes := match o with Event n _ _ => [n] | _ => [] end.
+Lemma event_names_flat (l : list (op aval)) : map (fun e => fst (fst e)) (events_of l) = flat_map ev_name_of l.
+Proof. unfold events_of. induction l as [|o l IH]; [reflexivity|]. cbn [flat_map]. rewrite map_app, IH. destruct o; reflexivity. Qed.
+
+Theorem names_checked_distinct (ths : list (list (op aval))) :
+  nodup_names (map (fun e => fst (fst e)) (events_of (concat ths))) = true -> names_distinct ths.
+Proof.
+  intros H x y n ts a ts' a' Vx Vy Ox Oy.
+  rewrite event_names_flat, <- (concat_number_threads ths 0), flat_map_map' in H.
+  assert (Nd : NoDup (concat (number_threads 0 ths))).
+  { apply (NoDup_map_inv fst). pose proof (nodup_threads (fun tc : list (nat * nat * op aval) => tc) (fun _ _ H0 => H0) (fun _ H0 => H0) ths 0) as K.
+    rewrite map_id in K. exact K. }
+  assert (E : (x, opa ths x) = (y, opa ths y)).
+  { apply (nodup_names_inj (fun cl : nat * nat * op aval => ev_name_of (snd cl)) _ H Nd (x, opa ths x) (y, opa ths y) n).
+    - apply call_in. split; [exact Vx|reflexivity].
+    - apply call_in. split; [exact Vy|reflexivity].
+    - cbn. rewrite Ox. reflexivity.
+    - cbn. rewrite Oy. reflexivity. }
+  injection E as E _. exact E.
+Qed.
+
 (* ------------------------------------------------------------------ what ./check runs *)
-From V Require Import C04.ProofsLts C04.ProofsLtsRace.
+From V Require Import C04.ProofsLts C04.ProofsLtsRace C04.ProofsLtsRec.
 
 Lemma controller_end rc :
   let xe := (length (rc_threads rc), 0) in
@@ -150,18 +179,19 @@ Proof.
   rewrite app_nth2, Nat.sub_diag by lia. cbn. rewrite app_length. cbn. repeat split; lia.
 Qed.
 
-(* an SRACE run whose logged trace the acceptor accepts (./check compares the exports the acceptor derives with the ones the
-   processors really received) passes every clause of SpecRace except, possibly, (d) - PARTIAL: for scripts without AddEvent *)
-Theorem accepted_srace_run_meets_spec_partial rc evs s' :
+(* ACCEPTED TRACE MEETS SPEC (race): an SRACE run whose logged trace the acceptor accepts (./check also compares the exports
+   the acceptor derives with the ones the processors really received) passes EVERY clause of SpecRace.
+   Hypotheses, all checked by ./check on every run: the span is sampled, the B / R history is well-formed ([history_ok]), the
+   replay ends with mu_ free, the scripts' event names are pairwise distinct ([parse_rcase]). *)
+Theorem accepted_srace_run_meets_spec rc evs s' :
   c_sampled (rc_cfg rc) = true ->
   history_ok rc (hist_of evs) = true ->
   replay (race_lts_threads rc) (linit (map_cfg conv (rc_cfg rc)) (map_start conv (rc_start rc))) (fun _ => O) evs 0 = inl s' ->
   l_mu s' = None ->
-  (forall x, valid (race_threads rc) x -> match opa (race_threads rc) x with Event _ _ _ => False | _ => True end) ->
-  race_check (rc_cfg rc) (rc_start rc) (race_threads rc) (hist_of evs) (l_got s') =
-  check (isrec_ok (hist_of evs) (number_threads 0 (race_threads rc))) isrec_tag.
+  nodup_names (map (fun e => fst (fst e)) (events_of (concat (race_threads rc)))) = true ->
+  race_check (rc_cfg rc) (rc_start rc) (race_threads rc) (hist_of evs) (l_got s') = [].
 Proof.
-  intros Hs Hh Hr Hmu Hnoev. unfold history_ok in Hh. apply andb_true_iff in Hh as [Hh _]. apply andb_true_iff in Hh as [H1 H2].
+  intros Hs Hh Hr Hmu Hnm. unfold history_ok in Hh. apply andb_true_iff in Hh as [Hh _]. apply andb_true_iff in Hh as [H1 H2].
   pose proof (history_ok_complete (race_threads rc) (hist_of evs) H1 H2) as Hc.
   destruct (controller_end rc) as [Vx Ex]. set (xe := (length (rc_threads rc), 0)) in *.
   assert (Hret : has false xe (hist_of evs)) by (apply (ch_returned _ _ Hc); exact Vx).
@@ -169,6 +199,29 @@ Proof.
   destruct (accepted_trace_race_clauses_ab (rc_cfg rc) (rc_start rc) (race_threads rc) evs s' xe Hs Hr Hmu Hret Hend) as [_ E].
   rewrite E.
   assert (Hee : is_end (opa (race_threads rc) xe) = true) by (rewrite Ex; reflexivity).
-  rewrite (accepted_trace_passes_cut_partial (rc_cfg rc) (rc_start rc) (race_threads rc) evs s' xe Hr Hc Vx Hee Hnoev).
+  rewrite (accepted_trace_passes_cut (rc_cfg rc) (rc_start rc) (race_threads rc) evs s' xe Hr Hc Vx Hee (names_checked_distinct _ Hnm)).
+  destruct (lock_order_is_linearization _ _ _ _ _ Hr) as (_ & Hnd & Hrt & Hbeg & Hord).
+  assert (Hval : forall x, In x (ids_of (fun _ => O) evs) <-> valid (race_threads rc) x).
+  { intros x. split; [intros H; apply (ch_begun _ _ Hc); apply Hbeg; exact H|intros H; apply Hrt; apply (ch_returned _ _ Hc); exact H]. }
+  assert (Hans : forall ev, In ev (hist_of evs) -> h_begin ev = false -> opa (race_threads rc) (h_tid ev, h_idx ev) = IsRec ->
+           exists l1 l2, ids_of (fun _ => O) evs = l1 ++ (h_tid ev, h_idx ev) :: l2 /\ h_res ev = flag (conv_threads (race_threads rc)) l1).
+  { intros ev Hin Hb Ho. apply (isrecording_answers _ _ _ _ _ (Hs : c_sampled (map_cfg conv (rc_cfg rc)) = true) Hr ev Hin Hb).
+    change (race_lts_threads rc) with (conv_threads (race_threads rc)). rewrite op_at_conv, Ho. reflexivity. }
+  rewrite (isrec_ok_lin (race_threads rc) (hist_of evs) _ Hnd Hval Hord (ch_returned _ _ Hc) Hans).
   destruct (c_procs (rc_cfg rc)); reflexivity.
 Qed.
+
+(* the controller's thread adds no event: the names checked by [parse_rcase] (those of the scripted threads) are all the names *)
+Lemma race_threads_events rc : events_of (concat (race_threads rc)) = events_of (concat (rc_threads rc)).
+Proof.
+  unfold race_threads. rewrite concat_app. unfold events_of. rewrite flat_map_app. cbn. rewrite app_nil_r. reflexivity.
+Qed.
+
+Corollary accepted_srace_run_meets_spec' rc evs s' :
+  c_sampled (rc_cfg rc) = true ->
+  history_ok rc (hist_of evs) = true ->
+  replay (race_lts_threads rc) (linit (map_cfg conv (rc_cfg rc)) (map_start conv (rc_start rc))) (fun _ => O) evs 0 = inl s' ->
+  l_mu s' = None ->
+  nodup_names (map (fun e => fst (fst e)) (events_of (concat (rc_threads rc)))) = true ->
+  race_check (rc_cfg rc) (rc_start rc) (race_threads rc) (hist_of evs) (l_got s') = [].
+Proof. intros Hs Hh Hr Hmu Hn. apply accepted_srace_run_meets_spec; try assumption. rewrite race_threads_events. exact Hn. Qed.
